@@ -3,6 +3,8 @@ package c10
 import (
 	"fmt"
 	"testing"
+	"testing/synctest"
+	"time"
 
 	"bngverif/internal/vstat"
 )
@@ -24,6 +26,9 @@ func TestPropExhaustive(t *testing.T) {
 		{RS: 65532, RE: 65535, PPS: 2, NIPs: 2, Bulk: false, BufSize: 10, Class: "exh:2ip-cap2-edge65535"},
 		{RS: 1, RE: 10, PPS: 3, NIPs: 1, Bulk: true, BufSize: 20, Class: "exh:1ip-cap3-nondividing"},
 		{RS: 61440, RE: 65535, PPS: 4096, NIPs: 3, Bulk: true, BufSize: 1, Class: "exh:3ip-cap1-edge65535"},
+		// size-rotated logs (run in a bubble, one second of virtual time per operation): two to three records per file
+		{RS: 1024, RE: 4023, PPS: 1000, NIPs: 1, Bulk: true, BufSize: 10, MaxFileSize: 400, Class: "exh:1ip-cap3-rotate400"},
+		{RS: 65530, RE: 65535, PPS: 3, NIPs: 2, Bulk: false, BufSize: 10, MaxFileSize: 250, Compress: true, Class: "exh:2ip-cap2-rotate250-gz"},
 	}
 	shard, shards := vstat.Shard()
 	dir := t.TempDir()
@@ -43,17 +48,35 @@ func TestPropExhaustive(t *testing.T) {
 					return
 				}
 				ran++
-				e := newEnv(t, dir, cfg, nil)
-				m := newModel(cfg, e.pubs, cfg.Bulk || !lenient)
-				for _, o := range seq {
-					m.step(t, e, o.alloc, o.sub, false)
-					if m.dead {
-						break
+				var m *model
+				var rot []string
+				run := func(bubble bool) {
+					e := newEnv(t, dir, cfg, nil)
+					e.inBubble = bubble
+					m = newModel(cfg, e.pubs, cfg.Bulk || !lenient)
+					for _, o := range seq {
+						if bubble {
+							time.Sleep(time.Second)
+						}
+						m.step(t, e, o.alloc, o.sub, false)
+						if m.dead {
+							break
+						}
 					}
+					if bubble {
+						time.Sleep(time.Second)
+					}
+					m.finish(t, e)
+					rot = e.rotClasses()
+					e.close()
 				}
-				m.finish(t, e)
-				e.close()
-				m.record(fmt.Sprintf("exhaustive-%d", ci))
+				if cfg.MaxFileSize > 0 {
+					synctest.Test(t, func(*testing.T) { run(true) })
+				} else {
+					run(false)
+				}
+				m.report(t)
+				m.record(fmt.Sprintf("exhaustive-%d", ci), rot...)
 				return
 			}
 			maxSub := used
